@@ -51,6 +51,9 @@ func defs() []unitDef {
 		{{"c.", "c.s", "c.long", "c.longs"}, {"d+", "d+s", "d+long", "d+longs"}, {"(e", "(es", "(elong", "(elongs"}, {"f|g", "f|gs", "f$", "f$s"}},
 		// names with a space inside
 		{{"l y", "l ys", "light year", "light years"}, {"k y", "k ys", "kilo year", "kilo years"}, {"m y", "m ys", "mega year", "mega years"}, {"g y", "g ys", "giga year", "giga years"}},
+		// a LATER name of a unit is a proper part of an EARLIER one (the four names are held in the order short singular,
+		// short plural, long singular, long plural)
+		{{"pcs", "pc", "pieces", "piece"}, {"boxes", "box", "cartons", "carton"}, {"pallets", "pallet", "stacks", "stack"}, {"trucks", "truck", "wagons", "wagon"}},
 	}
 	multSets := [][]int64{{2}, {60}, {10, 1000}, {2, 10}, {2, 60, 1000}, {10, 60, 1000}}
 	for ni, names := range nameSets {
@@ -593,7 +596,7 @@ func main() {
 			}
 			return res.Findings
 		},
-		Rule: "5 built-in unit sets + 18 generated definitions (multipliers over {2,10,60,1000}; names that are prefixes of each other; names with regexp metacharacters; names with a space inside) x {every integer in [0,200000] (generated definitions: [0,20000] in the quick tier; built-in sets: [0,2000000] in the thorough tier), powers of ten +-1 up to 10^18, multiplier boundaries, 2^63-1; floats k/8 for k<=4000, k*10^e and k*10^-e down to 10^-12; every well-formed string of 1-3 strictly descending components with counts from {0,1,9,10,59,60,61,100} in 4 name/spacing variants; 14 near misses incl. 64-bit overflow; integral counts written with a fraction (total above 2^53): an error or the exact number; every string also through IntSchema / FloatSchema carrying the units (must agree with the units' parser); bare digit strings with leading zeros, base prefixes and separators}; every case distinct. First use: for every definition, every pair over {ParseInt, FormatShortInt, FormatLongInt, ParseFloat} issued by two threads on one fresh definition under the cooperative scheduler (sync shim + access events on schema/), all schedules with <= 2 preemptions: vector-clock race scan and results equal to a single caller's",
+		Rule: "5 built-in unit sets + 24 generated definitions (multipliers over {2,10,60,1000}; names that are prefixes of each other; a later name of a unit contained in an earlier one; names with regexp metacharacters; names with a space inside) x {every integer in [0,200000] (generated definitions: [0,20000] in the quick tier; built-in sets: [0,2000000] in the thorough tier), powers of ten +-1 up to 10^18, multiplier boundaries, 2^63-1; floats k/8 for k<=4000, k*10^e and k*10^-e down to 10^-12; every well-formed string of 1-3 strictly descending components with counts from {0,1,9,10,59,60,61,100} in 4 name/spacing variants; 14 near misses incl. 64-bit overflow; integral counts written with a fraction (total above 2^53): an error or the exact number; every string also through IntSchema / FloatSchema carrying the units (must agree with the units' parser); bare digit strings with leading zeros, base prefixes and separators}; every case distinct. First use: for every definition, every pair over {ParseInt, FormatShortInt, FormatLongInt, ParseFloat} issued by two threads on one fresh definition under the cooperative scheduler (sync shim + access events on schema/), all schedules with <= 2 preemptions: vector-clock race scan and results equal to a single caller's",
 		Assumptions: []string{
 			"ambiguous inputs are outside the alphabet: bare numbers without a unit name, decimal counts, negative quantities",
 			"float tolerance 1e-6 absolute + 1e-9 relative (the formatter prints 6 decimals)",
